@@ -49,7 +49,7 @@ bool Plan::from_json(const JV &j, Plan &p) {
 JV RunResult::to_json() const {
 	JV j = JV::obj();
 	j.set("violated", JV::boolean(violated));
-	if (violated) { j.set("prop", JV::str(v.prop)); j.set("rule", JV::str(v.rule)); j.set("detail", JV::str(v.detail)); }
+	if (violated) { j.set("prop", JV::str(v.prop)); j.set("rule", JV::str(v.rule)); j.set("detail", JV::str(ascii_safe(v.detail))); }
 	if (inconclusive) j.set("inconclusive", JV::str(inconclusive_why));
 	if (harness_error) j.set("harness_error", JV::str(harness_what));
 	char b[32]; snprintf(b, sizeof b, "%016llx", (unsigned long long)trace_hash); j.set("trace", JV::str(b));
@@ -139,7 +139,7 @@ void World::exec_op(const Op &op) {
 		std::string payload, bytes;
 		if (op.a.has("hex")) bytes = hexdec(op.a.gets("hex"));
 		else {
-			if (op.a.has("msg")) payload = op.a.get("msg")->dump(); else payload = op.a.gets("text");
+			if (op.a.has("msg")) payload = op.a.get("msg")->dump(); else if (op.a.has("texthex")) payload = hexdec(op.a.gets("texthex")); else payload = op.a.gets("text");
 			if (cl->in.ws) bytes = ws_frame((int)op.a.geti("wsop", 1), payload, !op.a.getb("nofin"), !op.a.getb("nomask"), (uint32_t)mix64(plan.seed, op.uid), (int)op.a.geti("rsv", 0), (int)op.a.geti("lenenc", 0));
 			else bytes = raw_frame(payload);
 		}
